@@ -474,7 +474,7 @@ fn gen_meta(rng: &mut Rng, p: &GenParams, st: &mut GenState, n: &mut Node) {
         }
         Kind::Dir => {
             n.mode = if p.hostile_modes {
-                *rng.pick(&[0o755, 0o700, 0o2755, 0o1777, 0o3775, 0o555, 0o750, 0o4711, 0o7777])
+                *rng.pick(&[0o755, 0o777, 0o700, 0o2755, 0o1777, 0o3775, 0o555, 0o750, 0o4711, 0o7777])
             } else {
                 0o755
             };
